@@ -1353,6 +1353,82 @@ def o_polyval(mir, tier, seed):
     return dict(theory='structural (every configuration run concretely: no symbolic branch); elementary checks and relate uninterpreted', functions=['Validation for Polygon: visit_validation'], paths=npaths, status=st, info=info, model=None, replay=('polygon_validation', ''))
 
 
+# ---- C12: which member's interior point a multi-part geometry returns
+
+@obligation('C12', 'interior_point_member_selection_real', 'interior_point of MultiPolygon (0-3 members, each with or without an interior point of its own and an arbitrary scan-segment length): None exactly when no member has one, otherwise the point of the FIRST member of maximal length - always a point some member produced; MultiPoint / MultiLineString (0-3 members): None exactly when there is no centroid (MultiLineString: or no member has a point), otherwise the member point nearest to the centroid (first among ties) [the members\' own interior points, centroid and distances uninterpreted]')
+def o_ip_select(mir, tier, seed):
+    T = RealTheory()
+    IP = r'interior_point::<impl at [^>]*>::interior_point'
+    bad, npaths = [], 0
+    same = lambda a_, b_: z3.And(a_[0] == b_[0], a_[1] == b_[1])
+    # MultiPolygon: maximal segment length
+    for n in (0, 1, 2, 3):
+        has = [z3.Bool('mp_has_%d_%d' % (n, i)) for i in range(n)]
+        pts = [coord(T, 'mp_pt_%d_%d_' % (n, i)) for i in range(n)]
+        lens = [T.var('mp_len_%d_%d' % (n, i)) for i in range(n)]
+
+        def member(ip, d, has=has, pts=pts, lens=lens):
+            i = deref(d[0])[1]
+            return ('fork', [(has[i], Enum('Some', [[[list(pts[i])], lens[i]]])), (z3.Not(has[i]), Enum('None'))])
+        ip = Interp(mir, T, EXTRA, {'re:polygon_interior_point_with_segment_length::<\\w+>': member})
+        mp = [[('member', i) for i in range(n)]]
+        outs = ip.call_fn(mir.find('geo', IP, sig=r'_1: &geo_types::MultiPolygon<T>'), [Ref(lambda mp=mp: mp)], z3.BoolVal(True))
+        npaths += len(outs)
+        bad.append(z3.Not(z3.Or([pc for pc, _ in outs])))
+        anyh = z3.Or(has) if has else z3.BoolVal(False)
+        for pc, r in outs:
+            r = deref(r)
+            if variant_is(r, 'None'):
+                bad.append(z3.And(pc, anyh))
+                continue
+            got = deref(deref(r.fields[0])[0])
+            ok = z3.Or([z3.And(has[i], same(got, pts[i]), z3.And([z3.Implies(has[j], lens[i] > lens[j] if j < i else lens[i] >= lens[j]) for j in range(n) if j != i] + [z3.BoolVal(True)])) for i in range(n)] + [z3.BoolVal(False)])
+            bad.append(z3.And(pc, z3.Not(ok)))
+    # MultiPoint / MultiLineString: nearest to the centroid
+    for kind, sig in (('MultiPoint', r'_1: &geo_types::MultiPoint<T>'), ('MultiLineString', r'_1: &geo_types::MultiLineString<T>')):
+        for n in (0, 1, 2, 3):
+            hasc = z3.Bool('%s_has_centroid_%d' % (kind, n))
+            cen = coord(T, '%s_centroid_%d_' % (kind, n))
+            has = [z3.Bool('%s_has_%d_%d' % (kind, n, i)) for i in range(n)]
+            pts = [coord(T, '%s_pt_%d_%d_' % (kind, n, i)) for i in range(n)]
+            dist = [T.var('%s_dist_%d_%d' % (kind, n, i)) for i in range(n)]
+
+            def distance(ip, d, pts=pts, dist=dist):
+                c_ = deref(deref(d[1])[0])
+                for i, p_ in enumerate(pts):
+                    if c_[0].eq(p_[0]) and c_[1].eq(p_[1]):
+                        return dist[i]
+                raise Untranslatable('distance of an unknown point')
+
+            def member_ip(ip, d, has=has, pts=pts):
+                i = deref(d[0])[1]
+                return ('fork', [(has[i], Enum('Some', [[list(pts[i])]])), (z3.Not(has[i]), Enum('None'))])
+            uf = {'re:<geo_types::%s<T> as (algorithm::)?centroid::Centroid>::centroid' % kind: lambda ip, d, hasc=hasc, cen=cen: ('fork', [(hasc, Enum('Some', [[list(cen)]])), (z3.Not(hasc), Enum('None'))]),
+                  're:<euclidean::Euclidean as (algorithm::)?line_measures::distance::Distance<T, .*>>::distance': distance,
+                  're:<geo_types::LineString<T> as (algorithm::)?interior_point::InteriorPoint>::interior_point': member_ip}
+            ip = Interp(mir, T, EXTRA, uf)
+            if kind == 'MultiPoint':
+                g = [[[list(pts[i])] for i in range(n)]]
+                hasm = [z3.BoolVal(True)] * n
+            else:
+                g = [[('member', i) for i in range(n)]]
+                hasm = has
+            outs = ip.call_fn(mir.find('geo', IP, sig=sig), [Ref(lambda g=g: g)], z3.BoolVal(True))
+            npaths += len(outs)
+            bad.append(z3.Not(z3.Or([pc for pc, _ in outs])))
+            anyh = z3.Or(hasm) if n else z3.BoolVal(False)
+            for pc, r in outs:
+                r = deref(r)
+                if variant_is(r, 'None'):
+                    bad.append(z3.And(pc, hasc, anyh))
+                    continue
+                got = deref(deref(r.fields[0])[0])
+                ok = z3.And(hasc, z3.Or([z3.And(hasm[i], same(got, pts[i]), z3.And([z3.Implies(hasm[j], dist[i] < dist[j] if j < i else dist[i] <= dist[j]) for j in range(n) if j != i] + [z3.BoolVal(True)])) for i in range(n)] + [z3.BoolVal(False)]))
+                bad.append(z3.And(pc, z3.Not(ok)))
+    st, info, model = check_unsat('interior_point_member_selection_real', [z3.Or(bad)])
+    return dict(theory='Real + Bool; members\' interior points, scan-segment lengths, centroid and distances uninterpreted', functions=['InteriorPoint for MultiPolygon', 'InteriorPoint for MultiPoint', 'InteriorPoint for MultiLineString'], paths=npaths, status=st, info=info, model=None, replay=('interior_point_scan_line', ''))
+
+
 # ---- C12: the fold that combines the members' closest points
 
 @obligation('C12', 'closest_of_fold_real', 'closest_of over 0-3 members whose own answers are arbitrary (Intersection / SinglePoint / Indeterminate at arbitrary points, distances to the query arbitrary non-negative reals): the FIRST Intersection if there is one; otherwise Indeterminate exactly when no member gave a SinglePoint (in particular for no member at all); otherwise a SinglePoint of minimal distance (the last one among ties) - an Indeterminate member never ends the search or displaces a better answer (each path re-executed from scratch)')
